@@ -88,8 +88,11 @@ def determine_source_details(configurator):
     parsed = urlparse(repo_url)
     if parsed.password:
         # remove password
+        host = parsed.hostname
+        if parsed.port is not None:
+            host = "{}:{}".format(host, parsed.port)
         parsed = parsed._replace(
-            netloc="{}@{}".format(parsed.username, parsed.hostname))
+            netloc="{}@{}".format(parsed.username, host))
     result['repoURL'] = _encode_str(parsed.geturl())
 
     commit_info = _exec(git_cmd + ['show', '-s', '--format=' + _commit_info_format_str, 'HEAD'])
